@@ -271,6 +271,173 @@ static void cleanup(const std::string& prefix, int K)
     }
 }
 
+// Everything that is demanded of ONE run of K sub-iterations k0..k0+K-1 (on fresh or on re-used objects) with configuration c from the image 'init'
+// (as handed to set_up): iterates within bounds, the precomputed denominator after set_up(), the stored denominator strictly positive, every step == the update formula.
+// 'hist' is "" for runs on freshly built objects and "history=reused_object;..." for runs on re-used objects (it is part of the violation keys).
+// Returns false when the reference could not be built (recorded).
+static bool check_run(vmc::Ctx& ctx, const World& w, const Model& m, const Cfg& c, const std::string& kase, const std::string& hist, int k0, const std::vector<float>& init,
+                      const RunOut& U, const ObjFn& obj, RefStatic& rs)
+{
+  const std::vector<std::vector<float>>& Us = U.snaps;
+  const int K = (int)Us.size();
+  const std::string cls = cfg_class(c);
+  const float Uf = static_cast<float>(ubound_of(c));
+  // ---------------- iterates within [0, upper bound]
+  {
+    // a normalised smoothing kernel is a convex combination up to rounding: allow 1e-5 relative above the bound when the filter is on
+    const double hi = c.iif ? (double)Uf * (1 + 1e-5) : (double)Uf;
+    bool done = false;
+    for (int k = 0; k < K && !done; ++k)
+      for (float x : Us[k])
+        if (!(x >= 0) || !((double)x <= hi) || !std::isfinite(x))
+          {
+            ctx.violation("clause=bounds;" + hist + cls + ";ub=" + vmc::str(c.ub) + ";iif=" + vmc::str(c.iif), kase + ";k=" + vmc::str(k0 + k),
+                          "estimate after sub-iteration " + vmc::str(k0 + k) + " contains " + vmc::str(x) + ", outside [0, " + vmc::str(Uf) + "]");
+            done = true; break;
+          }
+    ctx.count("iterates_checked_within_bounds", K);
+  }
+
+  // ---------------- reference quantities
+  std::string why;
+  if (small::throws([&] { rs.subset_of = subset_of_bins(w, *obj.get_projector_pair().get_symmetries_used(), c.N); }, &why))
+    { ctx.count("rejected_configs"); ctx.observe("no subset partition: " + kase + " " + why); return false; }
+  rs.sens_total.assign(w.nv, 0.0);
+  for (size_t b = 0; b < w.nb; ++b) for (auto& e : w.P.rows[b]) rs.sens_total[e.first] += e.second / m.n[b];
+  size_t nonident = 0; for (size_t j = 0; j < w.nv; ++j) if (rs.sens_total[j] <= 0) ++nonident;
+  if (nonident) ctx.count("configs_with_nonidentifiable_voxels");
+  ref_denominator(w, m, rs);
+  if (rs.capped_bins) ctx.count("configs_with_capped_hessian_quotient");
+  std::vector<float> lam0 = init;
+  if (c.pos) model_min_to_small_positive(lam0, 10.E-6F);
+  shared_ptr<GeneralisedPrior<Target>> ref_prior;
+  rs.curv.assign(w.nv, 0.0);
+  if (c.prior)
+    {
+      ref_prior = my_prior(w, c.prior);
+      ref_prior->set_up(to_image(w, lam0));
+      shared_ptr<Target> cv(w.im->get_empty_copy());
+      dynamic_cast<PriorWithParabolicSurrogate<Target>&>(*ref_prior).parabolic_surrogate_curvature(*cv, *to_image(w, lam0));
+      rs.curv = to_double(flatf(*cv));
+    }
+  rs.D.resize(w.nv);
+  for (size_t j = 0; j < w.nv; ++j) rs.D[j] = (c.den == 1 ? 1.0 : rs.D_data[j]) + 2 * rs.curv[j];
+  model_min_to_small_positive(rs.D, 1e-5);
+  const bool formula = !c.iif && !rs.tie && !c.files;
+  if (rs.tie) ctx.count("configs_screened_threshold_tie_in_denominator");
+
+  // ---------------- the precomputed denominator itself
+  if (!rs.tie && !U.D_setup.empty())
+    {
+      ctx.count("denominators_checked");
+      double mx = 0; for (double x : rs.D_data) mx = std::max(mx, x);
+      for (size_t j = 0; j < w.nv; ++j)
+        {
+          const double ref = c.den == 1 ? 1.0 : rs.D_data[j];
+          const double tol = c.den == 1 ? 0.0 : 2e-4 * ref + 2e-6 * mx;
+          if (!(std::fabs((double)U.D_setup[j] - ref) <= tol))
+            {
+              ctx.violation("clause=denominator_data;" + hist + cls + ";den=" + (c.den == 1 ? "one" : "computed") + ";norm=" + vmc::str(c.norm), kase,
+                            "precomputed denominator after set_up(), voxel " + vmc::str(j) + ": STIR " + vmc::str(U.D_setup[j]) + " reference " + vmc::str(ref)
+                                + " ( = sum_b G_bj (G 1)_b / (n_b^2 y_b) on the explicit matrix)");
+              break;
+            }
+        }
+    }
+  if (c.prior != 5 && !U.D_end.empty())
+    {
+      ctx.count("denominators_checked_strictly_positive");
+      for (size_t j = 0; j < w.nv; ++j)
+        if (!(U.D_end[j] > 0) || !std::isfinite(U.D_end[j]))
+          { ctx.violation("clause=denominator_positive;" + hist + cls + ";den=" + vmc::str(c.den), kase, "denominator used for the updates, voxel " + vmc::str(j) + " = " + vmc::str(U.D_end[j]) + " is not strictly positive"); break; }
+    }
+
+  // ---------------- per-step formula
+  // Hypotheses that the statement leaves open, each to be held consistently over the whole run:
+  //   n = floor(k/N) (A) or floor((k-1)/N) (B);   voxels that no LOR sees are set to 0 before the first update only (F1) or before every update (F2)
+  if (formula)
+    {
+      const double alpha = alpha_of(c), gamma = gamma_of(c), Ud = (double)Uf;
+      bool alive[2][2] = { { true, true }, { true, true } }; // [B][F2]
+      for (int k = k0; k < k0 + K; ++k)
+        {
+          const int S = (k - 1 + c.ss) % c.N;
+          std::vector<float> prevf[2];
+          prevf[0] = k == k0 ? lam0 : Us[k - k0 - 1];
+          prevf[1] = prevf[0];
+          for (size_t j = 0; j < w.nv; ++j) if (rs.sens_total[j] <= 0) prevf[1][j] = 0.F;
+          if (k == k0) prevf[0] = prevf[1];
+          const bool fill_matters = !same_bits(prevf[0], prevf[1]);
+          const double z[2] = { alpha / (1 + gamma * (k / c.N)), alpha / (1 + gamma * ((k - 1) / c.N)) };
+          const bool z_matters = z[0] != z[1];
+          StepOut R[2][2]; int bad[2][2];
+          bool tie = false, capped = false;
+          for (int f = 0; f < 2; ++f)
+            {
+              if (f == 1 && !fill_matters) { for (int zi = 0; zi < 2; ++zi) R[zi][1] = R[zi][0]; continue; }
+              const std::vector<double> prev = to_double(prevf[f]);
+              std::vector<double> pg;
+              if (c.prior)
+                {
+                  shared_ptr<Target> g(w.im->get_empty_copy());
+                  ref_prior->compute_gradient(*g, *to_image(w, prevf[f]));
+                  pg = to_double(flatf(*g));
+                }
+              for (int zi = 0; zi < 2; ++zi)
+                {
+                  if (zi == 1 && !z_matters) { R[1][f] = R[0][f]; continue; }
+                  R[zi][f] = ref_step(w, m, c, rs, S, prev, c.prior ? &pg : nullptr, z[zi], Ud);
+                  tie = tie || R[zi][f].tie; capped = capped || R[zi][f].capped;
+                }
+            }
+          if (capped) ctx.count("steps_with_capped_quotient");
+          if (tie) { ctx.count("steps_screened_threshold_tie"); continue; }
+          ctx.count("steps_checked_against_formula");
+          if (R[0][0].at_zero) ctx.count("steps_with_voxels_clamped_at_0");
+          if (R[0][0].at_upper && c.ub) ctx.count("steps_with_voxels_clamped_at_upper_bound");
+          auto first_bad = [&](const StepOut& r) -> int {
+            double mx = 0; for (double x : r.out) mx = std::max(mx, std::fabs(x));
+            for (size_t j = 0; j < w.nv; ++j)
+              if (!(std::fabs((double)Us[k - k0][j] - r.out[j]) <= 2e-4 * r.mag[j] + 2e-6 * std::min(mx, 1e30))) return (int)j;
+            return -1;
+          };
+          bool any_ok = false;
+          for (int zi = 0; zi < 2; ++zi) for (int f = 0; f < 2; ++f) { bad[zi][f] = first_bad(R[zi][f]); any_ok = any_ok || bad[zi][f] < 0; }
+          if (z_matters)
+            {
+              if ((bad[0][0] < 0 || bad[0][1] < 0) && bad[1][0] >= 0 && bad[1][1] >= 0) ctx.count("steps_that_identify_n_as_floor_k_over_N");
+              if ((bad[1][0] < 0 || bad[1][1] < 0) && bad[0][0] >= 0 && bad[0][1] >= 0) ctx.count("steps_that_identify_n_as_floor_kminus1_over_N");
+            }
+          if (fill_matters)
+            {
+              if ((bad[0][0] < 0 || bad[1][0] < 0) && bad[0][1] >= 0 && bad[1][1] >= 0) ctx.count("steps_that_identify_nonidentifiable_voxels_zeroed_at_first_step_only");
+              if ((bad[0][1] < 0 || bad[1][1] < 0) && bad[0][0] >= 0 && bad[1][0] >= 0) ctx.count("steps_that_identify_nonidentifiable_voxels_zeroed_at_every_step");
+            }
+          const std::string key_tail = std::string(";den=") + (c.den == 1 ? "one" : "computed"); // the options are in the case string; the key names the code path
+          if (!any_ok)
+            {
+              const int j = bad[0][0];
+              ctx.violation("clause=update_formula;" + hist + cls + key_tail, kase + ";k=" + vmc::str(k),
+                            "sub-iteration " + vmc::str(k) + " (subset " + vmc::str(S) + "), voxel " + vmc::str(j) + ": STIR " + vmc::str(Us[k - k0][j]) + ", reference " + vmc::str(R[0][0].out[j])
+                                + " with n=floor(k/N) or " + vmc::str(R[1][0].out[j]) + " with n=floor((k-1)/N) (previous value " + vmc::str(prevf[0][j]) + ", D " + vmc::str(rs.D[j]) + ", zeta " + vmc::str(z[0]) + " resp. " + vmc::str(z[1])
+                                + (fill_matters ? "; zeroing the voxels that no LOR sees before this step does not explain it either" : "") + ")");
+              break;
+            }
+          bool any_alive = false;
+          for (int zi = 0; zi < 2; ++zi) for (int f = 0; f < 2; ++f) { alive[zi][f] = alive[zi][f] && bad[zi][f] < 0; any_alive = any_alive || alive[zi][f]; }
+          if (!any_alive)
+            {
+              ctx.violation("clause=relaxation_schedule;" + hist + cls + key_tail, kase + ";k=" + vmc::str(k),
+                            "up to sub-iteration " + vmc::str(k) + " every step matches the update for n=floor(k/N) or n=floor((k-1)/N) (voxels that no LOR sees zeroed at the first step only or at every step), "
+                            "but no single choice matches all steps of the run");
+              break;
+            }
+        }
+    }
+
+  return true;
+}
+
 static void run_cfg(vmc::Ctx& ctx, const Cfg& c)
 {
   const std::string kase = cfg_str(c);
@@ -316,159 +483,9 @@ static void run_cfg(vmc::Ctx& ctx, const Cfg& c)
   for (int k = 0; k < K; ++k) ctx.nontrivial(vmc::fnv(Us[k].data(), Us[k].size() * sizeof(float), vmc::fnv(kase + vmc::str(k))));
   ctx.count("states", K);
 
-  // ---------------- iterates within [0, upper bound]
-  {
-    // a normalised smoothing kernel is a convex combination up to rounding: allow 1e-5 relative above the bound when the filter is on
-    const double hi = c.iif ? (double)Uf * (1 + 1e-5) : (double)Uf;
-    bool done = false;
-    for (int k = 0; k < K && !done; ++k)
-      for (float x : Us[k])
-        if (!(x >= 0) || !((double)x <= hi) || !std::isfinite(x))
-          {
-            ctx.violation("clause=bounds;" + cls + ";ub=" + vmc::str(c.ub) + ";iif=" + vmc::str(c.iif), kase + ";k=" + vmc::str(k + 1),
-                          "estimate after sub-iteration " + vmc::str(k + 1) + " contains " + vmc::str(x) + ", outside [0, " + vmc::str(Uf) + "]");
-            done = true; break;
-          }
-    ctx.count("iterates_checked_within_bounds", K);
-  }
-
-  // ---------------- reference quantities
   RefStatic rs;
-  std::string why;
-  if (small::throws([&] { rs.subset_of = subset_of_bins(w, *bu.obj->get_projector_pair().get_symmetries_used(), c.N); }, &why))
-    { ctx.count("rejected_configs"); ctx.observe("no subset partition: " + kase + " " + why); cleanup(prefix, K); return; }
-  rs.sens_total.assign(w.nv, 0.0);
-  for (size_t b = 0; b < w.nb; ++b) for (auto& e : w.P.rows[b]) rs.sens_total[e.first] += e.second / m.n[b];
-  size_t nonident = 0; for (size_t j = 0; j < w.nv; ++j) if (rs.sens_total[j] <= 0) ++nonident;
-  if (nonident) ctx.count("configs_with_nonidentifiable_voxels");
-  ref_denominator(w, m, rs);
-  if (rs.capped_bins) ctx.count("configs_with_capped_hessian_quotient");
-  std::vector<float> lam0 = init;
-  if (c.pos) model_min_to_small_positive(lam0, 10.E-6F);
-  shared_ptr<GeneralisedPrior<Target>> ref_prior;
-  rs.curv.assign(w.nv, 0.0);
-  if (c.prior)
-    {
-      ref_prior = my_prior(w, c.prior);
-      ref_prior->set_up(to_image(w, lam0));
-      shared_ptr<Target> cv(w.im->get_empty_copy());
-      dynamic_cast<PriorWithParabolicSurrogate<Target>&>(*ref_prior).parabolic_surrogate_curvature(*cv, *to_image(w, lam0));
-      rs.curv = to_double(flatf(*cv));
-    }
-  rs.D.resize(w.nv);
-  for (size_t j = 0; j < w.nv; ++j) rs.D[j] = (c.den == 1 ? 1.0 : rs.D_data[j]) + 2 * rs.curv[j];
-  model_min_to_small_positive(rs.D, 1e-5);
+  if (!check_run(ctx, w, m, c, kase, "", 1, init, U, *bu.obj, rs)) { cleanup(prefix, K); return; }
   const bool formula = !c.iif && !rs.tie && !c.files;
-  if (rs.tie) ctx.count("configs_screened_threshold_tie_in_denominator");
-
-  // ---------------- the precomputed denominator itself
-  if (!rs.tie && !U.D_setup.empty())
-    {
-      ctx.count("denominators_checked");
-      double mx = 0; for (double x : rs.D_data) mx = std::max(mx, x);
-      for (size_t j = 0; j < w.nv; ++j)
-        {
-          const double ref = c.den == 1 ? 1.0 : rs.D_data[j];
-          const double tol = c.den == 1 ? 0.0 : 2e-4 * ref + 2e-6 * mx;
-          if (!(std::fabs((double)U.D_setup[j] - ref) <= tol))
-            {
-              ctx.violation("clause=denominator_data;" + cls + ";den=" + (c.den == 1 ? "one" : "computed") + ";norm=" + vmc::str(c.norm), kase,
-                            "precomputed denominator after set_up(), voxel " + vmc::str(j) + ": STIR " + vmc::str(U.D_setup[j]) + " reference " + vmc::str(ref)
-                                + " ( = sum_b G_bj (G 1)_b / (n_b^2 y_b) on the explicit matrix)");
-              break;
-            }
-        }
-    }
-  if (c.prior != 5 && !U.D_end.empty())
-    {
-      ctx.count("denominators_checked_strictly_positive");
-      for (size_t j = 0; j < w.nv; ++j)
-        if (!(U.D_end[j] > 0) || !std::isfinite(U.D_end[j]))
-          { ctx.violation("clause=denominator_positive;" + cls + ";den=" + vmc::str(c.den), kase, "denominator used for the updates, voxel " + vmc::str(j) + " = " + vmc::str(U.D_end[j]) + " is not strictly positive"); break; }
-    }
-
-  // ---------------- per-step formula
-  // Hypotheses that the statement leaves open, each to be held consistently over the whole run:
-  //   n = floor(k/N) (A) or floor((k-1)/N) (B);   voxels that no LOR sees are set to 0 before the first update only (F1) or before every update (F2)
-  if (formula)
-    {
-      const double alpha = alpha_of(c), gamma = gamma_of(c), Ud = (double)Uf;
-      bool alive[2][2] = { { true, true }, { true, true } }; // [B][F2]
-      for (int k = 1; k <= K; ++k)
-        {
-          const int S = (k - 1 + c.ss) % c.N;
-          std::vector<float> prevf[2];
-          prevf[0] = k == 1 ? lam0 : Us[k - 2];
-          prevf[1] = prevf[0];
-          for (size_t j = 0; j < w.nv; ++j) if (rs.sens_total[j] <= 0) prevf[1][j] = 0.F;
-          if (k == 1) prevf[0] = prevf[1];
-          const bool fill_matters = !same_bits(prevf[0], prevf[1]);
-          const double z[2] = { alpha / (1 + gamma * (k / c.N)), alpha / (1 + gamma * ((k - 1) / c.N)) };
-          const bool z_matters = z[0] != z[1];
-          StepOut R[2][2]; int bad[2][2];
-          bool tie = false, capped = false;
-          for (int f = 0; f < 2; ++f)
-            {
-              if (f == 1 && !fill_matters) { for (int zi = 0; zi < 2; ++zi) R[zi][1] = R[zi][0]; continue; }
-              const std::vector<double> prev = to_double(prevf[f]);
-              std::vector<double> pg;
-              if (c.prior)
-                {
-                  shared_ptr<Target> g(w.im->get_empty_copy());
-                  ref_prior->compute_gradient(*g, *to_image(w, prevf[f]));
-                  pg = to_double(flatf(*g));
-                }
-              for (int zi = 0; zi < 2; ++zi)
-                {
-                  if (zi == 1 && !z_matters) { R[1][f] = R[0][f]; continue; }
-                  R[zi][f] = ref_step(w, m, c, rs, S, prev, c.prior ? &pg : nullptr, z[zi], Ud);
-                  tie = tie || R[zi][f].tie; capped = capped || R[zi][f].capped;
-                }
-            }
-          if (capped) ctx.count("steps_with_capped_quotient");
-          if (tie) { ctx.count("steps_screened_threshold_tie"); continue; }
-          ctx.count("steps_checked_against_formula");
-          if (R[0][0].at_zero) ctx.count("steps_with_voxels_clamped_at_0");
-          if (R[0][0].at_upper && c.ub) ctx.count("steps_with_voxels_clamped_at_upper_bound");
-          auto first_bad = [&](const StepOut& r) -> int {
-            double mx = 0; for (double x : r.out) mx = std::max(mx, std::fabs(x));
-            for (size_t j = 0; j < w.nv; ++j)
-              if (!(std::fabs((double)Us[k - 1][j] - r.out[j]) <= 2e-4 * r.mag[j] + 2e-6 * std::min(mx, 1e30))) return (int)j;
-            return -1;
-          };
-          bool any_ok = false;
-          for (int zi = 0; zi < 2; ++zi) for (int f = 0; f < 2; ++f) { bad[zi][f] = first_bad(R[zi][f]); any_ok = any_ok || bad[zi][f] < 0; }
-          if (z_matters)
-            {
-              if ((bad[0][0] < 0 || bad[0][1] < 0) && bad[1][0] >= 0 && bad[1][1] >= 0) ctx.count("steps_that_identify_n_as_floor_k_over_N");
-              if ((bad[1][0] < 0 || bad[1][1] < 0) && bad[0][0] >= 0 && bad[0][1] >= 0) ctx.count("steps_that_identify_n_as_floor_kminus1_over_N");
-            }
-          if (fill_matters)
-            {
-              if ((bad[0][0] < 0 || bad[1][0] < 0) && bad[0][1] >= 0 && bad[1][1] >= 0) ctx.count("steps_that_identify_nonidentifiable_voxels_zeroed_at_first_step_only");
-              if ((bad[0][1] < 0 || bad[1][1] < 0) && bad[0][0] >= 0 && bad[1][0] >= 0) ctx.count("steps_that_identify_nonidentifiable_voxels_zeroed_at_every_step");
-            }
-          const std::string key_tail = std::string(";den=") + (c.den == 1 ? "one" : "computed"); // the options are in the case string; the key names the code path
-          if (!any_ok)
-            {
-              const int j = bad[0][0];
-              ctx.violation("clause=update_formula;" + cls + key_tail, kase + ";k=" + vmc::str(k),
-                            "sub-iteration " + vmc::str(k) + " (subset " + vmc::str(S) + "), voxel " + vmc::str(j) + ": STIR " + vmc::str(Us[k - 1][j]) + ", reference " + vmc::str(R[0][0].out[j])
-                                + " with n=floor(k/N) or " + vmc::str(R[1][0].out[j]) + " with n=floor((k-1)/N) (previous value " + vmc::str(prevf[0][j]) + ", D " + vmc::str(rs.D[j]) + ", zeta " + vmc::str(z[0]) + " resp. " + vmc::str(z[1])
-                                + (fill_matters ? "; zeroing the voxels that no LOR sees before this step does not explain it either" : "") + ")");
-              break;
-            }
-          bool any_alive = false;
-          for (int zi = 0; zi < 2; ++zi) for (int f = 0; f < 2; ++f) { alive[zi][f] = alive[zi][f] && bad[zi][f] < 0; any_alive = any_alive || alive[zi][f]; }
-          if (!any_alive)
-            {
-              ctx.violation("clause=relaxation_schedule;" + cls + key_tail, kase + ";k=" + vmc::str(k),
-                            "up to sub-iteration " + vmc::str(k) + " every step matches the update for n=floor(k/N) or n=floor((k-1)/N) (voxels that no LOR sees zeroed at the first step only or at every step), "
-                            "but no single choice matches all steps of the run");
-              break;
-            }
-        }
-    }
 
   // ---------------- restart from every k
   const std::string den_file = c.den == 2 ? prefix + "_precomputed_denominator.hv" : "";
@@ -552,12 +569,245 @@ static void run_cfg(vmc::Ctx& ctx, const Cfg& c)
                + vmc::str(*std::max_element(Us[K - 1].begin(), Us[K - 1].end())));
 }
 
+// ================================================================ histories on RE-USED objects
+// ONE OSSPSReconstruction object with ONE objective function (and, where the prior stays or only its penalisation factor changes, ONE prior object) is configured,
+// set_up() and run; then - without any setter call, or after setter calls for exactly the settings that change - set_up() again and run again (thorough: a third time).
+// Settings of a run: prior, number of subsets, alpha, gamma, upper bound, precomputed denominator (computed / "1" / file), start image, data.
+//   start 0..2: a new run (start_subiteration_num 1) from that image pattern;  start 3 (later runs only): continue from the last image of the previous run with
+//   start_subiteration_num = (last sub-iteration of the previous run)+1.   Every run does two full iterations of ITS number of subsets.
+// Oracle for every run of the history: check_run() (denominator after set_up == -(approximate Hessian) 1 of the CURRENT data / 1 / the file, strictly positive stored
+// denominator, every step == update formula with D, zeta, N, prior, bound of the CURRENT settings, bounds) and: images == those of freshly built objects with the current
+// settings started from the same image at the same sub-iteration number.
+static std::string reuse_str(const std::vector<Cfg>& runs)
+{
+  std::string s = cfg_str(runs[0]) + ";reuse=" + vmc::str((int)runs.size());
+  for (size_t i = 1; i < runs.size(); ++i)
+    {
+      const Cfg& c = runs[i];
+      s += ";r" + vmc::str((int)i + 1) + "=" + vmc::join(std::vector<int>{ c.prior, c.N, c.al, c.ga, c.ub, c.den, c.start, c.data });
+    }
+  return s;
+}
+static std::vector<Cfg> reuse_parse(const std::string& str)
+{
+  std::vector<Cfg> runs; runs.push_back(cfg_parse(str));
+  auto m = vmc::kv(str);
+  const int n = atoi(m["reuse"].c_str());
+  for (int i = 2; i <= n; ++i)
+    {
+      const std::vector<int> v = vmc::ints(m["r" + vmc::str(i)]);
+      Cfg c = runs[0];
+      if (v.size() == 8) { c.prior = v[0]; c.N = v[1]; c.al = v[2]; c.ga = v[3]; c.ub = v[4]; c.den = v[5]; c.start = v[6]; c.data = v[7]; }
+      runs.push_back(c);
+    }
+  return runs;
+}
+
+// a denominator file "given by the user": written by set_up() of a separate, fresh reconstruction object (automatic computation) for the data of the run
+static std::string den_file_for(const std::string& tmpdir, const World& w, const Model& m, const Cfg& c)
+{
+  static std::map<std::string, std::string> files;
+  const std::string key = vmc::str(c.g) + "_" + vmc::str(c.sym) + "_" + vmc::str(c.norm) + "_" + vmc::str(c.add) + "_" + vmc::str(c.data);
+  auto it = files.find(key);
+  if (it != files.end()) return it->second;
+  const std::string pre = tmpdir + "/c08_" + vmc::str((int)getpid()) + "_df" + key;
+  Setup s; s.N = 1; s.sym = c.sym; s.use_subset_sens = c.uss; s.prior = 0;
+  Built b = build_objective(w, m, s);
+  Recon r;
+  Cfg c0 = c; c0.N = 1; c0.prior = 0; c0.den = 0; c0.ss = 0; c0.pos = 0; c0.iif = 0;
+  configure(r, w, c0, b, 1, 1, pre, false, "");
+  if (r.set_up(to_image(w, image_pattern(w, 0))) != Succeeded::yes) throw std::runtime_error("could not produce a denominator file");
+  return files[key] = pre + "_precomputed_denominator.hv";
+}
+
+struct FreshRun { bool ok = false; std::string err; RunOut out; };
+static const FreshRun& fresh_run(vmc::Ctx& ctx, const World& w, const Model& m, const Cfg& c, int Kend, int k0, const std::vector<float>& init, const std::string& den_file, const std::string& prefix)
+{
+  static std::map<uint64_t, FreshRun> memo; // a fresh run is a function of (settings, first sub-iteration, start image): executed once per process
+  const uint64_t h = vmc::fnv(init.data(), init.size() * sizeof(float), vmc::fnv(cfg_str(c) + ";k0=" + vmc::str(k0)));
+  auto it = memo.find(h);
+  if (it != memo.end()) { ctx.count("reuse_fresh_reference_runs_shared"); return it->second; }
+  if (memo.size() > 20000) memo.clear();
+  FreshRun& f = memo[h];
+  Built bf;
+  f.ok = run_recon(ctx, w, m, c, Kend, k0, &init, "", prefix + "_f", false, den_file, f.out, bf, f.err);
+  ctx.count("reuse_fresh_reference_runs");
+  return f;
+}
+
+static void run_reuse(vmc::Ctx& ctx, const std::vector<Cfg>& runs)
+{
+  const std::string kase = reuse_str(runs);
+  ctx.current("C08", kase);
+  const Cfg& c0 = runs[0];
+  if (runs.size() < 2 || c0.g < 0 || c0.g >= NGEOMS || c0.files || c0.iif) return;
+  for (const Cfg& c : runs) if (c.N < 1) return;
+  World& w = world(c0.g, c0.sym);
+  const std::string prefix = ctx.tmpdir + "/c08_" + vmc::str((int)getpid()) + "_u";
+  Built b; Recon r;
+  std::vector<float> last; int Kprev = 0, Kmax = 0;
+  std::string hprefix = cfg_str(c0); // the history so far (for the identity of states)
+  static std::set<uint64_t> first_runs_seen;
+  static std::map<uint64_t, bool> checked; // check_run is a function of (settings, k0, start image, iterates, denominators): evaluated once per process
+  size_t runs_done = 0;
+  for (size_t i = 0; i < runs.size(); ++i)
+    {
+      const Cfg& c = runs[i];
+      const Model m = make_model(w, c.norm, c.add, c.data);
+      const bool resume = i > 0 && c.start == 3;
+      const int k0 = resume ? Kprev + 1 : 1, Kend = k0 - 1 + 2 * c.N;
+      Kmax = std::max(Kmax, Kend);
+      const std::vector<float> init = resume ? last : image_pattern(w, c.start == 3 ? 1 : c.start);
+      std::string den_file, err;
+      if (c.den == 2 && small::throws([&] { den_file = den_file_for(ctx.tmpdir, w, m, c); }, &err))
+        { ctx.count("rejected_configs"); ctx.observe("no denominator file: " + kase + " : " + err.substr(0, 160)); break; }
+      if (i > 0) hprefix += ";r" + vmc::str((int)i + 1) + "=" + vmc::join(std::vector<int>{ c.prior, c.N, c.al, c.ga, c.ub, c.den, c.start, c.data });
+      const std::string cls = cfg_class(c);
+      const std::string hist = i == 0 ? std::string() : std::string("history=reused_object;prev_prior=") + prior_name(runs[i - 1].prior) + ";";
+
+      // ---------------- the re-used objects
+      RunOut R; bool ok = true; int setters = 0;
+      if (small::throws(
+              [&] {
+                if (i == 0)
+                  {
+                    Setup s; s.N = c.N; s.sym = c.sym; s.use_subset_sens = c.uss; s.prior = c.prior == 5 ? 0 : c.prior;
+                    b = build_objective(w, m, s);
+                    if (c.prior == 5) { b.prior = my_prior(w, 5); b.obj->set_prior_sptr(b.prior); }
+                    configure(r, w, c, b, Kend, k0, prefix, false, den_file);
+                  }
+                else
+                  { // setter calls for exactly what changes
+                    const Cfg& p = runs[i - 1];
+                    if (c.prior != p.prior)
+                      {
+                        ++setters;
+                        if ((p.prior == 1 || p.prior == 2) && (c.prior == 1 || c.prior == 2))
+                          { b.prior->set_penalisation_factor(c.prior == 1 ? 0.1F : 10.F); ctx.count("reuse_penalisation_factor_changed_on_the_same_prior_object"); }
+                        else { b.prior = my_prior(w, c.prior); b.obj->set_prior_sptr(b.prior); ctx.count(c.prior ? "reuse_other_prior_object_set" : "reuse_prior_removed"); }
+                      }
+                    else if (c.prior) ctx.count("reuse_same_prior_object_set_up_again");
+                    if (c.N != p.N) { ++setters; r.set_num_subsets(c.N); ctx.count("reuse_num_subsets_changed"); }
+                    if (Kend != Kprev) { ++setters; r.set_num_subiterations(Kend); r.set_save_interval(Kend); }
+                    if (k0 != r.get_start_subiteration_num()) { ++setters; r.set_start_subiteration_num(k0); }
+                    if (c.al != p.al) { ++setters; r.relaxation_parameter = alpha_of(c); }
+                    if (c.ga != p.ga) { ++setters; r.relaxation_gamma = gamma_of(c); }
+                    if (c.ub != p.ub) { ++setters; r.upper_bound = ubound_of(c); }
+                    if (c.al != p.al || c.ga != p.ga || c.ub != p.ub) ctx.count("reuse_relaxation_or_upper_bound_changed");
+                    const std::string dn = c.den == 1 ? "1" : den_file;
+                    if (dn != r.precomputed_denominator_filename) { ++setters; r.precomputed_denominator_filename = dn; ctx.count("reuse_precomputed_denominator_setting_changed"); }
+                    if (c.data != p.data) { ++setters; b.y = projdata_from(w, m.y); r.set_input_data(b.y); ctx.count("reuse_input_data_changed"); }
+                    if (resume) ctx.count("reuse_continued_from_last_image"); else if (c.start != p.start) ctx.count("reuse_other_start_image");
+                    if (!setters) ctx.count(resume || c.start != p.start ? "reuse_without_any_setter_call_other_image" : "reuse_without_any_setter_call_same_start_image");
+                  }
+                r.snaps.clear();
+                shared_ptr<Target> target = to_image(w, init);
+                if (r.set_up(target) != Succeeded::yes) { ok = false; err = "set_up returned Succeeded::no"; return; }
+                if (r.precomputed_denominator_ptr) R.D_setup = flatf(*r.precomputed_denominator_ptr);
+                if (r.reconstruct(target) != Succeeded::yes) { ok = false; err = "reconstruct returned Succeeded::no"; return; }
+                if (r.precomputed_denominator_ptr) R.D_end = flatf(*r.precomputed_denominator_ptr);
+                R.snaps = r.snaps;
+              },
+              &err))
+        ok = false;
+      ctx.count("traces_validated_against_impl");
+      ctx.count("transitions", (long long)R.snaps.size() + (i > 0 ? 1 : 0)); // the sub-iterations + the re-use (setters + set_up on the used object)
+      if (i > 0) ctx.count("reuse_transitions");
+
+      // ---------------- freshly built objects with the current settings, from the same image
+      const FreshRun& F = fresh_run(ctx, w, m, c, Kend, k0, init, den_file, prefix);
+      if (!F.ok)
+        {
+          ctx.count("rejected_configs");
+          if (ok) ctx.observe("re-used objects run a configuration that freshly built objects reject (" + F.err.substr(0, 120) + "): " + kase);
+          break;
+        }
+      if (!ok)
+        {
+          if (i == 0) { ctx.count("rejected_configs"); break; }
+          ctx.violation("clause=reuse;kind=error;" + hist + cls, kase, "run " + vmc::str((int)i + 1) + " on the re-used objects fails (" + err.substr(0, 240) + ") while freshly built objects with these settings run");
+          break;
+        }
+      if ((int)R.snaps.size() != 2 * c.N || F.out.snaps.size() != R.snaps.size())
+        {
+          ctx.violation("clause=loop;" + hist + cls, kase, "run " + vmc::str((int)i + 1) + " produced " + vmc::str(R.snaps.size()) + " (re-used objects) / " + vmc::str(F.out.snaps.size()) + " (fresh objects) sub-iterations instead of " + vmc::str(2 * c.N));
+          break;
+        }
+      ++runs_done;
+      // state = (history so far, k, image)
+      {
+        const uint64_t hh = vmc::fnv(hprefix);
+        if (i > 0 || first_runs_seen.insert(hh).second)
+          {
+            for (size_t k = 0; k < R.snaps.size(); ++k) ctx.nontrivial(vmc::fnv(R.snaps[k].data(), R.snaps[k].size() * sizeof(float), vmc::fnv(vmc::str((int)k), hh)));
+            ctx.count("states", (long long)R.snaps.size());
+          }
+      }
+
+      // ---------------- the oracle of a run, for the current settings
+      {
+        uint64_t h = vmc::fnv(cfg_str(c) + ";k0=" + vmc::str(k0) + ";" + hist);
+        h = vmc::fnv(init.data(), init.size() * sizeof(float), h);
+        for (auto& v : R.snaps) h = vmc::fnv(v.data(), v.size() * sizeof(float), h);
+        h = vmc::fnv(R.D_setup.data(), R.D_setup.size() * sizeof(float), h);
+        h = vmc::fnv(R.D_end.data(), R.D_end.size() * sizeof(float), vmc::fnv(std::string("e"), h));
+        auto it = checked.find(h);
+        if (it != checked.end() && it->second) ctx.count(i ? "reuse_later_runs_bitwise_identical_to_a_run_already_checked_with_the_same_settings" : "reuse_first_runs_bitwise_identical_to_a_run_already_checked");
+        else
+          {
+            const long long nv_before = ctx.counters["violating_cases"];
+            RefStatic rs;
+            const bool built = check_run(ctx, w, m, c, kase, hist, k0, init, R, *b.obj, rs);
+            if (checked.size() > 200000) checked.clear();
+            checked[h] = built && ctx.counters["violating_cases"] == nv_before;
+            if (i) ctx.count("reuse_later_runs_checked_against_formula_and_denominator");
+          }
+        if (i) ctx.count("reuse_later_runs_satisfying_the_run_oracle_demanded");
+      }
+
+      // ---------------- re-used objects == freshly built objects
+      if (i > 0)
+        {
+          if (!R.D_setup.empty() && !F.out.D_setup.empty())
+            ctx.count(same_bits(R.D_setup, F.out.D_setup) ? "reuse_denominator_after_set_up_bitwise_equal_to_fresh_objects" : "reuse_denominator_after_set_up_not_bitwise_equal_to_fresh_objects");
+          bool bad = false;
+          for (size_t k = 0; k < R.snaps.size() && !bad; ++k)
+            {
+              const std::vector<float>& a = R.snaps[k]; const std::vector<float>& u = F.out.snaps[k];
+              if (same_bits(a, u)) { ctx.count("reuse_images_bitwise_equal_to_fresh_objects"); continue; }
+              double mx = 0; for (float x : u) mx = std::max(mx, (double)std::fabs(x));
+              const double d = max_abs_diff(a, u);
+              const double rel = mx > 0 ? d / mx : d;
+              if (rel <= 1e-5)
+                {
+                  ctx.count("reuse_images_equal_to_fresh_objects_within_rounding_only");
+                  static bool once = false;
+                  if (!once) { once = true; ctx.observe("re-used objects equal to fresh objects only within rounding (relative difference " + vmc::str(rel) + " <= 1e-5), e.g. " + kase); }
+                  continue;
+                }
+              ctx.violation("clause=reuse;kind=images_differ_from_fresh_objects;" + hist + cls + ";den=" + (c.den == 1 ? "one" : c.den == 2 ? "file" : "computed"), kase + ";k=" + vmc::str(k0 + (int)k),
+                            "run " + vmc::str((int)i + 1) + " on the re-used objects (after set_up), image after sub-iteration " + vmc::str(k0 + (int)k) + " differs from the one of freshly built objects with the same settings and start image by "
+                                + vmc::str(d) + " (max value " + vmc::str(mx) + ")");
+              bad = true;
+            }
+          if (bad) break;
+        }
+      last = R.snaps.back(); Kprev = Kend;
+    }
+  if (runs_done >= 2) { ctx.count("evaluations"); ctx.count("reuse_histories"); if (runs_done >= 3) ctx.count("reuse_histories_with_three_runs"); }
+  cleanup(prefix, Kmax); cleanup(prefix + "_f", 0);
+  if (runs_done == runs.size() && ctx.samples.size() < 8 && runs[1].prior != c0.prior && runs[1].N != c0.N)
+    ctx.sample(kase + " : " + vmc::str((int)runs.size()) + " runs on one OSSPSReconstruction/objective function object, every run matches the update formula with the denominator of its own settings and the images of freshly built objects", 8);
+}
+
 int main(int argc, char** argv)
 {
   vmc::Ctx ctx(argc, argv, "C08");
   small::quiet();
   ctx.rule = "history search: state = (configuration, k, image after sub-iteration k); transition = one real OSSPS update_estimate step or one restart (fresh objective function + "
-             "reconstruction object, fresh set_up, start_subiteration_num=k+1); every k is an interruption point; distinct_nontrivial = distinct (configuration, k, image content) reached";
+             "reconstruction object, fresh set_up, start_subiteration_num=k+1); every k is an interruption point; distinct_nontrivial = distinct (configuration, k, image content) reached; "
+             "plus histories of 2 (thorough: 3) runs on ONE re-used OSSPSReconstruction/objective function/prior object, all (first run, later run) pairs of run settings over a small alphabet "
+             "(prior, subsets, relaxation, upper bound, denominator computed/1/file, start image/continue, data), transition = setters + set_up on the used object, every later run checked against the run oracle of its own settings and against fresh objects";
   ctx.assume("subset used at sub-iteration k is (k-1+start_subset) mod num_subsets (documented order, C06 checks the schedule itself); bins of a subset as defined by find_basic_vs_nums_in_subset + related view/segments");
   ctx.assume("model of the mean: ybar_b = ((G lambda)_b + a_b)/n_b with G the explicit ray-tracing matrix, extracted bin by bin with the symmetry/cache setting of the configuration (sym=1 STIR defaults, sym=0 all off; independence of rows from symmetries is C03), n_b the factors of BinNormalisationFromProjData");
   ctx.assume("tolerance of the update formula: |STIR-ref| <= 2e-4 * (|lambda_j| + zeta N (sum_b G_bj (q_b + 1/n_b) + (|grad R_j| + 2 curv_j max|lambda|)/N) / D_j) + 2e-6 max|ref| : relative to the sum of the magnitudes "
@@ -573,7 +823,15 @@ int main(int argc, char** argv)
              "the run then does not start from the saved iterate and equality is not demanded (counted; the deviation is recorded); (ii) a non-bitwise difference below 1e-5*max is recorded as an observation, not a violation");
   ctx.assume("restart through files: 'initial estimate' of the uninterrupted run is an Interfile image as well, so that all runs of the configuration work on the geometry as read from a header (6 significant digits of the voxel size, C10); formula not checked there");
   ctx.assume("with the inter-iteration filter on only bounds (with 1e-5 relative slack above the upper bound for the rounding of the normalised kernel) and restart are checked");
-  if (ctx.replaying()) { run_cfg(ctx, cfg_parse(ctx.replay)); return ctx.finish(); }
+  ctx.assume("histories on re-used objects: every run is 2 full iterations of its own number of subsets; a later run either starts at sub-iteration 1 from an image pattern or continues from the last image of the previous run with "
+             "start_subiteration_num = previous end + 1; between runs only the setters of the settings that change are called (none when nothing changes), then set_up(); the 'precomputed denominator' file of a run is the one "
+             "set_up() of a separate fresh object writes for the data of that run; re-used objects must give bitwise the images of freshly built objects (difference below 1e-5*max: observation only); "
+             "the run oracle (a deterministic function of settings, start image, iterates and denominators) is evaluated once per distinct input and process");
+  if (ctx.replaying())
+    {
+      if (vmc::kv(ctx.replay).count("reuse")) run_reuse(ctx, reuse_parse(ctx.replay)); else run_cfg(ctx, cfg_parse(ctx.replay));
+      return ctx.finish();
+    }
   const bool th = ctx.thorough();
   uint64_t unit = 0;
   const int ngeom = th ? NGEOMS : 4;
@@ -641,6 +899,60 @@ int main(int argc, char** argv)
                     }
         }
     }
+  // ---------------- histories on re-used objects (see run_reuse): all (first run, second run) pairs, thorough: + all triples over a smaller alphabet
+  {
+    auto visit_reuse = [&](const std::vector<Cfg>& runs) -> bool {
+      const uint64_t u = unit++;
+      if (!ctx.mine(u)) return true;
+      if (ctx.expired()) return false;
+      run_reuse(ctx, runs);
+      return true;
+    };
+    struct Par { int al, ga, ub; };
+    static const Par PARS[4] = { { 0, 1, 0 }, { 1, 2, 1 }, { 1, 1, 0 }, { 0, 0, 1 } };
+    // run settings = prior x N x (alpha, gamma, upper bound) x denominator
+    auto alphabet = [&](const Cfg& base, const std::vector<int>& priors, const std::vector<int>& Ns, int npars, const std::vector<int>& dens) {
+      std::vector<Cfg> v;
+      for (int pr : priors) for (int N : Ns) for (int pa = 0; pa < npars; ++pa) for (int den : dens)
+        { Cfg c = base; c.prior = pr; c.N = N; c.al = PARS[pa].al; c.ga = PARS[pa].ga; c.ub = PARS[pa].ub; c.den = den; c.start = 1; v.push_back(c); }
+      return v;
+    };
+    auto pairs = [&](const std::vector<Cfg>& A, const std::vector<int>& starts2, int data2) -> bool {
+      for (const Cfg& a : A) for (const Cfg& b0 : A) for (int st : starts2)
+        { Cfg b = b0; b.start = st; if (data2 >= 0) b.data = data2; if (!visit_reuse({ a, b })) return false; }
+      return true;
+    };
+    // base 1: 2D geometry with voxels that no LOR sees, additive term, normalisation; base 2: fully identifiable 2D geometry, data with zero-count LORs; base 3: 3 segments
+    Cfg b1; b1.g = 0; b1.add = 1; b1.norm = 1; b1.data = 0;
+    Cfg b2; b2.g = 1; b2.add = 0; b2.norm = 0; b2.data = 1;
+    Cfg b3; b3.g = 2; b3.add = 1; b3.norm = 1; b3.data = 0;
+    if (!th)
+      {
+        if (!pairs(alphabet(b1, { 0, 1, 2, 4, 5 }, { 1, 2 }, 2, { 0, 1, 2 }), { 1, 2, 3 }, -1)) return ctx.finish();
+        if (!pairs(alphabet(b2, { 0, 2, 4, 5 }, { 1, 2 }, 1, { 0, 1, 2 }), { 1, 3 }, -1)) return ctx.finish();
+      }
+    else
+      {
+        if (!pairs(alphabet(b1, { 0, 1, 2, 4, 5, 6 }, { 1, 2, 4 }, 4, { 0, 1, 2 }), { 1, 3 }, -1)) return ctx.finish();
+        if (!pairs(alphabet(b1, { 0, 1, 2, 4, 5 }, { 1, 2 }, 2, { 0, 1, 2 }), { 0, 2 }, -1)) return ctx.finish();
+        if (!pairs(alphabet(b2, { 0, 1, 2, 4, 5 }, { 1, 2 }, 2, { 0, 1, 2 }), { 1, 2, 3 }, -1)) return ctx.finish();
+        { Cfg bp = b1; bp.pos = 1; if (!pairs(alphabet(bp, { 0, 2, 4, 5 }, { 1, 2 }, 1, { 0, 1, 2 }), { 2, 3 }, -1)) return ctx.finish(); }
+      }
+    // other data between the runs (set_input_data on the used object), both directions
+    for (int d = 0; d < 2; ++d)
+      { Cfg bd = b1; bd.data = d; if (!pairs(alphabet(bd, { 0, 2, 5 }, { 1, 2 }, 1, { 0, 1, 2 }), { 1, 3 }, 1 - d)) return ctx.finish(); }
+    // 3 segments
+    if (!pairs(alphabet(b3, th ? std::vector<int>{ 0, 1, 2, 4, 5 } : std::vector<int>{ 0, 2, 4 }, th ? std::vector<int>{ 1, 2, 3 } : std::vector<int>{ 1, 3 }, 1, th ? std::vector<int>{ 0, 1, 2 } : std::vector<int>{ 0, 1 }), { 1, 3 }, -1)) return ctx.finish();
+    if (th)
+      { // three runs
+        const std::vector<Cfg> T = alphabet(b1, { 0, 2, 4, 5 }, { 1, 2 }, 1, { 0, 1, 2 });
+        static const int ST[3][2] = { { 1, 1 }, { 2, 3 }, { 3, 3 } };
+        for (const Cfg& a : T) for (const Cfg& b0 : T) for (const Cfg& c0 : T) for (int si = 0; si < 3; ++si)
+          { Cfg b = b0, c = c0; b.start = ST[si][0]; c.start = ST[si][1]; if (!visit_reuse({ a, b, c })) return ctx.finish(); }
+        ctx.maxi("runs_on_one_reused_object", 3);
+      }
+    ctx.maxi("runs_on_one_reused_object", 2);
+  }
   ctx.maxi("geometries", ngeom);
   ctx.maxi("full_iterations_per_run", 3);
   return ctx.finish();
